@@ -55,4 +55,14 @@ OBLIGATIONS = [
         desc="Checker._download_and_verify end to end for one share (real ValidatedExtendedURIProxy + ValidatedReadBucketProxy, adversarial UEB bytes, share-hash chain, "
              "block/ciphertext hash lists and block; 1 segment, k=1, N=2): verdict (True, sharenum, None) => UEB, block and both hash lists are the genuine ones; "
              "anything else => (False, sharenum, 'corrupt'), never an errback; a genuine share is reported good"),
+    chx("all_blocks_verified", "C45_h", "h_all_blocks", timeout=T, bounds={"quick": {"n_max": 4}, "thorough": {"n_max": 6}},
+        desc="Checker._download_and_verify/_get_blocks with recording stand-ins for the two validated proxies (num_segments 1..n_max, symbolic failing block; block fetches answered asynchronously, "
+             "i.e. their Deferreds fire only after the fetch chain has been built): "
+             "share/block/ciphertext hash validation run first with the UEB's parameters; the share is reported good only after get_block was called for exactly "
+             "0..num_segments-1 in order and none failed; a failing block gives (False, sharenum, 'corrupt')"),
+    chx("repairer_parameters", "C45_h", "h_repairer_params", timeout=T,
+        desc="Repairer.start + its IEncryptedUploadable methods (symbolic size, k, N, segment size, read lengths): the encoder gets (k, N) from the verify cap, the size "
+             "from the filenode and exactly the file's own segment size from filenode.get_segment_size() (so the re-encoded UEB can equal the original, with "
+             "ueb_completeness); ciphertext is read sequentially from offset 0",
+        outside="the upload itself (CHKUploader, server selection), 'never alters existing good shares', reading back from repaired shares"),
 ]
